@@ -18,20 +18,20 @@ for d in seeded/${SEEDS:-C*}/; do
      git -C /repo apply --check /verif/$d/patch.diff 2>/dev/null || { echo "$s: patch does not apply" >> $out.tmp; git -C /repo checkout -q HEAD -- . ; continue; }
   fi
   git -C /repo apply /verif/$d/patch.diff
-  res=$(./check $prop quick 2>&1)
+  res=$(timeout 2400 ./check $prop quick 2>&1)
   rc=$?
   by="$prop"
   if [ $rc != 1 ]; then
     # not reported by the check of the property it was written for: try the checks of neighbouring properties
-    for alt in C01 C09 C13 C10 C07; do
+    for alt in C01 C09 C13 C10 C07 C12 C14 C17; do
       [ $alt = $prop ] && continue
-      res2=$(./check $alt quick 2>&1); rc2=$?
+      res2=$(timeout 2400 ./check $alt quick 2>&1); rc2=$?
       if [ $rc2 = 1 ]; then res="$res2"; rc=1; by="$alt"; break; fi
     done
   fi
   git -C /repo checkout -q HEAD -- .
   line=$(echo "$res" | grep -m1 -A1 '^VIOLATION' | tr '\n' ' ' | cut -c1-260)
-  if [ $rc = 1 ]; then verdict="DETECTED by $by quick"; else verdict="NOT detected by $prop quick nor by C01 C09 C13 C10 C07 (exit $rc)"; fi
+  if [ $rc = 1 ]; then verdict="DETECTED by $by quick"; else verdict="NOT detected by $prop quick nor by C01 C09 C13 C10 C07 C12 C14 C17 (exit $rc)"; fi
   echo "$s: $base$verdict :: $line" >> $out.tmp
   python3 - "$d" "$prop" "$rc" "$by" <<'PY'
 import json,sys
